@@ -46,6 +46,12 @@ def gen_cases(tier, seed):
                     i += 1
                     yield {'family': 'cp%d/%s' % (ncp, mode), 'sizes': sz, 'ncp': ncp, 'stale': stale, 'idx': i,
                            'seed': seed, 'tier': tier, 'mode': mode}
+    for sz in sizes:
+        if sum(sz):
+            for rep in range(1 if tier == 'quick' else 4):
+                i += 1
+                yield {'family': 'stream_path/retry', 'sizes': sz, 'ncp': 1, 'stale': False, 'idx': i, 'seed': seed,
+                       'tier': tier, 'mode': 'stream_retry'}
 
 
 def tables_for(sizes):
@@ -114,7 +120,88 @@ def make_flow(tables, ncp, cpdir, cnt, fail_at=None, src_fail=None, up_fail=None
     return steps
 
 
+def run_stream_retry(case):
+    """stream('<path>') - the step behind checkpoint - used directly: ONE Flow object is run, fails while the stream file is
+    being written (a step upstream or downstream fails once), and is simply run again. The committed file must hold exactly
+    the stream of the successful run."""
+    d = lab.df()
+    rng = boot.rng(case['seed'], 'C08', 'stream_retry', case['idx'])
+    sizes = case['sizes']
+    tables = tables_for(sizes)
+    nz = [j for j, n in enumerate(sizes) if n]
+    fj = rng.choice(nz)
+    fk = rng.choice(sorted({0, sizes[fj] // 2, sizes[fj] - 1}))
+    where = rng.choice(['upstream', 'downstream'])
+    cfg = {'sizes': sizes, 'fails_once_at': [fj, fk], 'failing_step': where}
+    state = {'armed': True}
+
+    def src(package):
+        for i in range(len(tables)):
+            package.pkg.add_resource({'name': 'res%d' % i, 'path': 'res%d.csv' % i, 'schema': {'fields': copy.deepcopy(F)}})
+        yield package.pkg
+        yield from package
+        for t in tables:
+            yield (copy.deepcopy(r) for r in t)
+
+    def failing_once(package):
+        yield package.pkg
+        for j, res in enumerate(package):
+            def it(res=res, j=j):
+                for n, row in enumerate(res):
+                    if state['armed'] and j == fj and n == fk:
+                        state['armed'] = False
+                        raise RuntimeError('step failed (first attempt only)')
+                    yield row
+            yield it()
+
+    def build(path, failing):
+        mid = [d.stream(path)]
+        if failing:
+            mid = [failing_once] + mid if where == 'upstream' else mid + [failing_once]
+        return d.Flow(src, *mid, d.add_field('z', 'integer', 9))
+    counters = {'crash_points_executed': 1, 'recoveries_compared': 0, 'unshimmed_events': 0,
+                'complete_checkpoints_found': 0, 'partial_files_found': 0}
+    viol = []
+    with boot.quiet():
+        build('clean/s.ndjson', False).process()
+    want = open('clean/s.ndjson').read()
+    flow = build('retry/s.ndjson', True)
+    first_failed = False
+    try:
+        with boot.quiet():
+            flow.process()
+    except Exception:
+        first_failed = True
+    if not first_failed:
+        return dict(nontrivial=False, violations=[], cov={'crash_event_kind': {}, 'mode': {}}, counters=counters,
+                    inconclusive='the failing first attempt did not fail')
+    if os.path.exists('retry/s.ndjson'):
+        viol.append({'kind': 'checkpoint_committed_on_failure', 'mech': 'stream_path/committed_on_failure', 'config': cfg,
+                     'msg': '%r: the failed attempt left a committed stream file' % cfg})
+    err = None
+    try:
+        with boot.quiet():
+            flow.process()
+    except Exception as e:
+        err = e
+    counters['recoveries_compared'] += 1
+    if err is not None:
+        viol.append({'kind': 'recovery_failed', 'mech': 'stream_path/retry_failed', 'config': cfg,
+                     'msg': '%r: the retry of the same Flow failed: %s' % (cfg, str(getattr(err, 'cause', err))[:200])})
+    else:
+        got = open('retry/s.ndjson').read() if os.path.exists('retry/s.ndjson') else None
+        if got != want:
+            sdesc, sres, complete, problems = iolab.parse_ndjson(got or '')
+            viol.append({'kind': 'checkpoint_content', 'mech': 'stream_path/retry_content', 'config': cfg,
+                         'msg': '%r: after the retry the committed stream file differs from the stream of a clean run: '
+                         '%d vs %d bytes, complete=%s %s' % (cfg, len(got or ''), len(want), complete, problems[:2])})
+    return dict(nontrivial=True, violations=viol, counters=counters,
+                cov={'crash_event_kind': {}, 'mode': {'stream_path_retry_same_flow/%s' % where: 1}}, sample={'config': cfg})
+
+
 def run_case(case):
+    if case['mode'] == 'stream_retry':
+        return run_stream_retry(case)
     d = lab.df()
     counters = {'crash_points_executed': 0, 'recoveries_compared': 0, 'unshimmed_events': 0,
                 'complete_checkpoints_found': 0, 'partial_files_found': 0}
